@@ -58,6 +58,7 @@ type sut struct {
 	// environment bookkeeping of the random driver: which start-of-epoch blocks exist
 	lastBlockRound int // round of the latest start-of-epoch block (economics.go copies it into the next one)
 	lastPrev       int // PrevEpochStartRound carried by the latest processed start-of-epoch block
+	errors         []string
 }
 
 // conc maps a model value to the uint64 the real code gets: values in the upper half of the model's
@@ -144,7 +145,8 @@ func (s *sut) apply(a string, in M) {
 			panic("Revert without a processed start-of-epoch block")
 		}
 		if err := s.t.RevertStateToBlock(s.parent); err != nil {
-			panic("RevertStateToBlock: " + err.Error())
+			// the state is observed as it is; TLC decides what that means
+			s.errors = append(s.errors, "RevertStateToBlock: "+err.Error())
 		}
 		s.parent = nil
 		s.lastBlockRound = s.lastPrev
@@ -184,6 +186,7 @@ func replay(path, mismatchOut string) {
 	}
 	distinct := vtrace.NewDistinct()
 	steps, mismatches, flagged, reported := 0, 0, 0, map[string]int{}
+	callErrors := 0
 	perClass := map[string]int{}
 	written := 0
 	for bi, b := range bs {
@@ -229,6 +232,12 @@ func replay(path, mismatchOut string) {
 				}
 			}
 		}
+		if len(s.errors) > 0 {
+			callErrors += len(s.errors)
+			if callErrors <= 2 {
+				vtrace.Drift("C34", fmt.Sprintf("behaviour %d: %s", bi, s.errors[0]), nil)
+			}
+		}
 		if firstBad >= 0 {
 			mismatches++
 			cls := b[firstBad].A + fmt.Sprint(b[firstBad].St["isStart"], obs[firstBad]["isStart"],
@@ -264,6 +273,7 @@ func replay(path, mismatchOut string) {
 	vtrace.Stat("mismatch_traces", written)
 	vtrace.Stat("mismatch_events", w.N)
 	vtrace.Stat("flagged", flagged)
+	vtrace.Stat("call_errors", callErrors)
 }
 
 func describe(b []vtrace.Step) string {
@@ -299,7 +309,7 @@ func record(seed int64, traces, n int, out string, mode string) {
 	}
 	rng := rand.New(rand.NewSource(seed))
 	const W = 1 << 30
-	starts := 0
+	starts, callErrors := 0, 0
 	for t := 0; t < traces; t++ {
 		rpe := 2 + rng.Intn(8)
 		if t%3 == 1 {
@@ -394,6 +404,12 @@ func record(seed int64, traces, n int, out string, mode string) {
 			}
 			w.Emit(a, ev, M{}, s.proj())
 		}
+		if len(s.errors) > 0 {
+			callErrors += len(s.errors)
+			if callErrors <= 2 {
+				vtrace.Drift("C34", fmt.Sprintf("trace %d: %s", t, s.errors[0]), nil)
+			}
+		}
 	}
 	if err := w.Close(); err != nil {
 		vtrace.Broken(err.Error())
@@ -401,6 +417,7 @@ func record(seed int64, traces, n int, out string, mode string) {
 	vtrace.Stat("events", w.N)
 	vtrace.Stat("traces", traces)
 	vtrace.Stat("epoch_starts", starts)
+	vtrace.Stat("call_errors", callErrors)
 }
 
 func main() {
